@@ -245,6 +245,18 @@ func (i *InMemCollector) reloadConfigs() {
 
 	i.StressRelief.UpdateFromConfig()
 
+	// AddHostMetadataToTrace is reloadable: start or stop decorating spans
+	// with the hostname to match the new configuration.
+	hostname := ""
+	if i.Config.GetAddHostMetadataToTrace() {
+		if h, err := os.Hostname(); err == nil {
+			hostname = h
+		}
+	}
+	i.mutex.Lock()
+	i.hostname = hostname
+	i.mutex.Unlock()
+
 	// Send reload signals to all workers to clear their local samplers
 	// so that the new configuration will be propagated
 	for _, worker := range i.workers {
@@ -481,8 +493,8 @@ func (i *InMemCollector) ProcessSpanImmediately(sp *types.Span) (processed bool,
 	if i.Config.GetAddRuleReasonToTrace() {
 		sp.Data.Set(types.MetaRefineryReason, reason)
 	}
-	if i.hostname != "" {
-		sp.Data.Set(types.MetaRefineryLocalHostname, i.hostname)
+	if hostname := i.localHostname(); hostname != "" {
+		sp.Data.Set(types.MetaRefineryLocalHostname, hostname)
 	}
 
 	i.addAdditionalAttributes(sp)
@@ -500,7 +512,7 @@ func (i *InMemCollector) dealWithSentTrace(ctx context.Context, tr cache.TraceSe
 	_, span := otelutil.StartSpanMulti(ctx, i.Tracer, "dealWithSentTrace", map[string]interface{}{
 		"trace_id":    sp.TraceID,
 		"kept_reason": keptReason,
-		"hostname":    i.hostname,
+		"hostname":    i.localHostname(),
 	})
 	defer span.End()
 
@@ -515,8 +527,8 @@ func (i *InMemCollector) dealWithSentTrace(ctx context.Context, tr cache.TraceSe
 		sp.Data.Set(types.MetaRefinerySendReason, TraceSendLateSpan)
 
 	}
-	if i.hostname != "" {
-		sp.Data.Set(types.MetaRefineryLocalHostname, i.hostname)
+	if hostname := i.localHostname(); hostname != "" {
+		sp.Data.Set(types.MetaRefineryLocalHostname, hostname)
 	}
 	isDryRun := i.Config.GetIsDryRun()
 	keep := tr.Kept()
@@ -700,6 +712,14 @@ type sentRecord struct {
 	reason string
 }
 
+// localHostname returns the hostname spans are decorated with, or "" when
+// host metadata is disabled. It can change on config reload.
+func (i *InMemCollector) localHostname() string {
+	i.mutex.RLock()
+	defer i.mutex.RUnlock()
+	return i.hostname
+}
+
 func (i *InMemCollector) addAdditionalAttributes(sp *types.Span) {
 	for k, v := range i.Config.GetAdditionalAttributes() {
 		sp.Data.Set(k, v)
@@ -740,8 +760,8 @@ func (i *InMemCollector) sendTraces() {
 			if isDryRun {
 				sp.Data.Set(config.DryRunFieldName, t.shouldSend)
 			}
-			if i.hostname != "" {
-				sp.Data.Set(types.MetaRefineryLocalHostname, i.hostname)
+			if hostname := i.localHostname(); hostname != "" {
+				sp.Data.Set(types.MetaRefineryLocalHostname, hostname)
 			}
 			mergeTraceAndSpanSampleRates(sp, t.SampleRate(), isDryRun)
 			i.addAdditionalAttributes(sp)
